@@ -17,17 +17,26 @@ def _unescape(s):
     return bytes(int(h, 16) for h in _ESC.findall(s))
 
 
-def trace_history(exe, workdir, plain, cm, hm):
-    """returns (list of (offset, bytes)) for the output file, final file bytes"""
+def trace_history(exe, workdir, plain, cm, hm, pre=None):
+    """returns (list of (offset, bytes) writes and (None, length) truncations) for the output file, final file bytes, bytes the
+    output path held before the run (b"" for a fresh path). pre = (cipher mode, plaintext) of an earlier complete encryption that
+    already lies at the output path (the ordinary edit / re-encrypt cycle)."""
     inp = os.path.join(workdir, "in.bin")
     out = os.path.join(workdir, "out.wenc")
+    before = b""
+    if pre is not None:
+        open(inp, "wb").write(pre[1])
+        r0 = subprocess.run([exe, "-e", "-i", inp, "-o", out, "-k", cli.KEYTXT, "--cmode", str(pre[0]), "--hmode", str(hm)], stdout=subprocess.DEVNULL, stderr=subprocess.DEVNULL, timeout=120)
+        if r0.returncode != 0:
+            return None, None, None
+        before = open(out, "rb").read()
     open(inp, "wb").write(plain)
     log = os.path.join(workdir, "strace.log")
-    r = subprocess.run(["strace", "-f", "-e", "trace=openat,read,write,pwrite64,lseek,close", "-xx", "-s", "1000000", "-o", log,
+    r = subprocess.run(["strace", "-f", "-e", "trace=openat,read,write,pwrite64,lseek,close,ftruncate,truncate", "-xx", "-s", "1000000", "-o", log,
                         exe, "-e", "-i", inp, "-o", out, "-k", cli.KEYTXT, "--cmode", str(cm), "--hmode", str(hm)],
                        stdout=subprocess.DEVNULL, stderr=subprocess.DEVNULL, timeout=120)
     if r.returncode != 0:
-        return None, None
+        return None, None, None
     fd = None
     pos = 0
     writes = []
@@ -38,6 +47,13 @@ def trace_history(exe, workdir, plain, cm, hm):
             m = re.search(r"=\s*(\d+)\s*$", line)
             if m:
                 fd, pos = int(m.group(1)), 0
+                if "O_TRUNC" in line:
+                    writes.append((None, 0))
+            continue
+        if line.startswith("truncate(") and outhex in line:
+            m = re.search(r",\s*(\d+)\)\s*=\s*0", line)
+            if m:
+                writes.append((None, int(m.group(1))))
             continue
         if fd is None:
             continue
@@ -55,20 +71,33 @@ def trace_history(exe, workdir, plain, cm, hm):
             m = re.match(r'pwrite64\(\d+, "((?:\\x[0-9a-f]{2})*)", \d+, (\d+)\)\s*=\s*(\d+)', line)
             if m:
                 writes.append((int(m.group(2)), _unescape(m.group(1))[:int(m.group(3))]))
+        elif line.startswith("ftruncate(%d," % fd):
+            m = re.match(r"ftruncate\(\d+,\s*(\d+)\)\s*=\s*0", line)
+            if m:
+                writes.append((None, int(m.group(1))))
         elif line.startswith("lseek(%d," % fd):
             m = re.search(r"=\s*(\d+)\s*$", line)
             if m:
                 pos = int(m.group(1))
         elif line.startswith("close(%d)" % fd):
             fd = None
-    return writes, open(out, "rb").read()
+    return writes, open(out, "rb").read(), before
 
 
-def states_of(writes):
-    cur = bytearray()
-    seen = {b""}
-    out = [(b"", -1, 0)]
+def states_of(writes, before=b""):
+    cur = bytearray(before)
+    seen = {bytes(before)}
+    out = [(bytes(before), -1, 0)]
     for wi, (off, data) in enumerate(writes):
+        if off is None:  # truncation to `data` bytes (O_TRUNC at open, ftruncate)
+            del cur[data:]
+            if len(cur) < data:
+                cur.extend(b"\0" * (data - len(cur)))
+            b = bytes(cur)
+            if b not in seen:
+                seen.add(b)
+                out.append((b, wi, 0))
+            continue
         for k in range(1, len(data) + 1):
             st = bytearray(cur)
             if off + k > len(st):
@@ -108,23 +137,26 @@ def run(tier):
                         hists.append((cm, hm, n))
         else:
             hists = [(cm, cm % 3, 37) for cm in range(5)]
+        # the output path already holds a complete earlier encryption under the same key (another cipher mode, a longer text)
+        hists += [(cm, hm, n, (cm + 1) % 5) for (cm, hm, n) in (hists[:3] if tier != "thorough" else hists[::3])]
         env = dict(os.environ)
 
         def one(h):
-            cm, hm, n = h
-            wd = os.path.join(root, "h%d_%d_%d" % h)
+            cm, hm, n = h[:3]
+            wd = os.path.join(root, "h" + "_".join(map(str, h)))
             os.makedirs(wd)
             plain = bytes((i * 7 + 1) % 256 for i in range(n))
-            writes, final = trace_history(exe, wd, plain, cm, hm)
+            pre = (h[3], bytes((i * 5 + 3) % 256 for i in range(n + 150))) if len(h) > 3 else None
+            writes, final, before = trace_history(exe, wd, plain, cm, hm, pre)
             if writes is None:
                 return h, None, 0, 0, []
-            sts, replayed = states_of(writes)
+            sts, replayed = states_of(writes, before)
             bad = []
             if replayed != final:
                 bad.append(("strace-log-mismatch", "replaying the traced writes does not reproduce the output file"))
             runs = 0
             for (b, wi, k) in sts:
-                if b == final:
+                if b == final or (pre is not None and b == before):  # the untouched earlier file is a complete, authentic file of its own
                     continue
                 p = os.path.join(wd, "state.wenc")
                 open(p, "wb").write(b)
@@ -133,9 +165,9 @@ def run(tier):
                     r = subprocess.run(args, stdout=subprocess.DEVNULL, stderr=subprocess.DEVNULL, env=env, timeout=60)
                     runs += 1
                     if r.returncode == 0:
-                        off = writes[wi][0] if wi >= 0 else 0
+                        off = (writes[wi][0] or 0) if wi >= 0 else 0
                         where = "header-write" if off < 10 else "tag-write" if off < 48 else "body-write"
-                        bad.append(("partial-file-accepted:" + where, "syscall history (cmode %d, hmode %d, %d bytes): crash after %d of %d bytes of write #%d at offset %d leaves a %d-byte file that `Wencry %s` accepts" % (cm, hm, n, k, len(writes[wi][1]) if wi >= 0 else 0, wi, off, len(b), op)))
+                        bad.append(("partial-file-accepted:" + where, "syscall history (cmode %d, hmode %d, %d bytes%s): crash after %d of %d bytes of write #%d at offset %d leaves a %d-byte file that `Wencry %s` accepts" % (cm, hm, n, ", output path held an earlier encryption" if pre else "", k, len(writes[wi][1]) if (wi >= 0 and writes[wi][0] is not None) else 0, wi, off, len(b), op)))
             # the complete file must be accepted
             p = os.path.join(wd, "final.wenc")
             open(p, "wb").write(final)
@@ -143,7 +175,7 @@ def run(tier):
             if r.returncode != 0:
                 bad.append(("complete-file-rejected", "the completely written file does not verify"))
             shutil.rmtree(wd, ignore_errors=True)
-            return h, [(off, len(d)) for off, d in writes], len(sts), runs, bad
+            return h, [(off, len(d)) if off is not None else ("truncate", d) for off, d in writes], len(sts), runs, bad
 
         with cf.ThreadPoolExecutor(max_workers=c.NCPU) as ex:
             for h, wl, ns, runs, bad in ex.map(one, hists):
@@ -154,7 +186,7 @@ def run(tier):
                 nstates += ns
                 nruns += runs
                 if len(samples) < 3:
-                    samples.append({"history": {"cmode": h[0], "hmode": h[1], "bytes": h[2]}, "writes_offset_len": wl, "crash_states": ns})
+                    samples.append({"history": {"cmode": h[0], "hmode": h[1], "bytes": h[2], "output_path_held_earlier_encryption_in_cmode": (h[3] if len(h) > 3 else None)}, "writes_offset_len": wl, "crash_states": ns})
                 for key, desc in bad[:3]:
                     viol.append({"key": key, "desc": desc, "replay": {"strace_history": list(h)}})
     finally:
